@@ -22,7 +22,7 @@ from harness.geom import DirStub, position_spec
 from harness.fgstub import FullSphereStub, make_fullgrid, gen_G, orbits
 
 PROPERTY = "C02"
-FUNCTIONS = ["molgri.space.fullgrid.FullGrid._get_N_N", "FullGrid.get_full_adjacency", "FullGrid.get_full_borders", "FullGrid.get_full_distances",
+FUNCTIONS = ["molgri.space.fullgrid.FullGrid.get_full_prefactors (as a step of a history)", "molgri.space.fullgrid.FullGrid._get_N_N", "FullGrid.get_full_adjacency", "FullGrid.get_full_borders", "FullGrid.get_full_distances",
              "FullGrid.get_total_volumes", "FullGrid.get_full_grid_as_array", "FullGrid.__getattr__", "FullGrid.__len__",
              "PositionGrid._get_N_N_position_array", "PositionGrid.get_all_position_volumes", "PositionGrid.get_position_grid_as_array",
              "fullgrid._t_and_o_2_positions", "translations.get_between_radii", "translations.get_increments",
@@ -112,7 +112,12 @@ def run_shape(shape):
             fg = make_fullgrid(F, TR, Vm, n_b, o, sarr([SR(x) for x in r]), SR(f), G, stub)
             A, B, D = fg.get_full_adjacency(), fg.get_full_borders(), fg.get_full_distances()
             V = fg.get_total_volumes()
-            return A, B, D, V, len(fg)
+            # history on the same object: the prefactor getter divides in place on what the border getter hands out; asking for the
+            # matrices again afterwards must give the same answers
+            first = {k: (list(M.tocoo().row), list(M.tocoo().col), list(M.tocoo().data)) for k, M in (("adjacency", A), ("border_len", B), ("center_distances", D))}
+            fg.get_full_prefactors()
+            again = {"adjacency": fg.get_full_adjacency(), "border_len": fg.get_full_borders(), "center_distances": fg.get_full_distances()}
+            return A, B, D, V, len(fg), first, again
 
     Rb, pvol, padj, pbor, pdis = position_spec(n_o, n_t, area, arc, ang, r, zero=z3.RealVal(0))
 
@@ -138,7 +143,7 @@ def run_shape(shape):
             continue
         if acc.reachable is not True:
             acc.reach(prover.satisfiable(path.premises))
-        A, B, D, V, ln = path.value
+        A, B, D, V, ln, first, again = path.value
         mats = {"adjacency": A, "border_len": B, "center_distances": D}
         ok_shape = all(tuple(M.shape) == (n, n) for M in mats.values()) and len(V) == n and ln == n
         acc.structural("shapes", ok_shape, detail=str({k: M.shape for k, M in mats.items()}) + f" len(V)={len(V)} len={ln}", cex={"model": _model(path)})
@@ -176,6 +181,14 @@ def run_shape(shape):
             Mc = M.tocoo()
             for v in Mc.data:
                 claims.append((f"stored_positive[{prop}]#{len(claims)}", z(v) > 0))
+        for prop in mats:
+            r0, c0, d0 = first[prop]
+            Mc = again[prop].tocoo()
+            if list(Mc.row) != r0 or list(Mc.col) != c0:
+                acc.structural(f"getters_after_prefactors_same_pattern[{prop}]", False, detail="pattern changed after get_full_prefactors()", cex={"model": _model(path)})
+                continue
+            for k_, (v0, v1) in enumerate(zip(d0, Mc.data)):
+                claims.append((f"getters_after_prefactors[{prop}]#{k_}", z(v1) == z(v0)))
         for a in range(n):
             pa, ra = divmod(a, n_b)
             vrot = vols[ra] if n_b > 1 else z3.RealVal(str(__import__("fractions").Fraction(np.pi ** 2)))
@@ -240,6 +253,10 @@ def numeric_violations(shape, model):
     with contextlib.redirect_stdout(io.StringIO()), real_code():
         A, B, D = fg.get_full_adjacency(), fg.get_full_borders(), fg.get_full_distances()
         V = fg.get_total_volumes()
+        firstd = {k: np.asarray(M.toarray(), dtype=float).copy() for k, M in (("adjacency", A), ("border_len", B), ("center_distances", D))}
+        fg.get_full_prefactors()
+        againd = {"adjacency": fg.get_full_adjacency(), "border_len": fg.get_full_borders(), "center_distances": fg.get_full_distances()}
+        A, B, D = againd["adjacency"], againd["border_len"], againd["center_distances"]   # the property must hold for these as well
     n = n_b * n_o * n_t
     N = n_b
     opp = lambda i: (i + N) % (2 * N)
@@ -260,6 +277,9 @@ def numeric_violations(shape, model):
         a = Afull(prop, i, j)
         return a if a != 0 else Afull(prop, i, opp(j))
     bad = []
+    for k_, M in againd.items():
+        if not np.allclose(np.asarray(M.toarray(), dtype=float), firstd[k_], rtol=1e-12, atol=0):
+            bad.append(f"getters_after_prefactors[{k_}]")
     mats = {"adjacency": A, "border_len": B, "center_distances": D}
     if not (all(tuple(M.shape) == (n, n) for M in mats.values()) and len(V) == n):
         return [f"shapes {[M.shape for M in mats.values()]} {len(V)}"]
